@@ -40,7 +40,7 @@ func (c12) Batches(tier string, seed uint64) []core.Batch {
 }
 
 func (c12) Mandatory(tier string) []string {
-	m := []string{"stream:writer", "stream:reader", "stream:single-writer", "stream:single-reader", "stream:entry-sum-entry-sum", "stream:source-data+EOF", "stream:source-onebyte", "stream:source-chunks", "stream:zero-length-chunk", "stream:unknown-algorithm-rejected", "stream:subset-size-0",
+	m := []string{"stream:writer", "stream:reader", "stream:single-writer", "stream:single-reader", "stream:entry-sum-entry-sum", "stream:source-data+EOF", "stream:source-onebyte", "stream:source-chunks", "stream:zero-length-chunk", "stream:other-algorithm-name-rejected", "stream:subset-size-0",
 		"stream:subset-size-4", "stream:repeated-algorithm", "stream:len-0", "stream:len>=4096",
 		"prov:best-sha256", "prov:best-sha512", "prov:best-both", "prov:dsc-sha256", "prov:sources-sha256", "prov:dsc-md5", "prov:dsc-sha1"}
 	for _, a := range c12Algos {
@@ -283,21 +283,32 @@ func (p c12) stream(c *core.C, cs c12Stream) {
 			c.Failf("NewHasher(%s): size %d digest %x for a %d-byte stream", a, nh.Size(), nh.Sum(nil), len(data))
 		}
 	}
-	if _, err := hashio.GetHash("sha384"); err == nil {
-		c.Failf("GetHash accepted the unknown algorithm sha384")
-	}
-	if h, err := hashio.NewHasher("SHA256"); err == nil || h != nil {
-		c.Failf("NewHasher accepted the unknown algorithm name SHA256")
-	}
-	// unknown algorithm names
-	for _, bad := range []string{"sha384", "MD5", "", "sha-256", "crc32"} {
-		if _, _, err := hashio.NewHasherWriters(append(append([]string{}, cs.Algos...), bad), io.Discard); err == nil {
-			c.Failf("NewHasherWriters accepted the unknown algorithm %q", bad)
+	// Names other than the four: the statement is silent on whether they are refused (evidence only). What
+	// it does cover: IF a spelling variant of one of the four is accepted, the digests reported under it
+	// must still be the true digests of that algorithm.
+	alias := map[string]string{"SHA256": "sha256", "MD5": "md5", "sha-256": "sha256"}
+	for _, bad := range []string{"sha384", "MD5", "", "sha-256", "crc32", "SHA256"} {
+		if _, err := hashio.GetHash(bad); err == nil {
+			c.Cover("stream:other-algorithm-name-accepted")
+		}
+		h, err := hashio.NewHasher(bad)
+		if err != nil || h == nil {
+			c.Cover("stream:other-algorithm-name-rejected")
+		} else {
+			c.Cover("stream:other-algorithm-name-accepted")
+			if a, ok := alias[bad]; ok {
+				h.Write(data)
+				if h.Size() != int64(len(data)) || !bytes.Equal(h.Sum(nil), digest(a, data)) {
+					c.Failf("NewHasher(%q) was accepted but reports size %d digest %x for a %d-byte stream (true %s digest %x)", bad, h.Size(), h.Sum(nil), len(data), a, digest(a, data))
+				}
+			}
+		}
+		if _, hs, err := hashio.NewHasherWriters(append(append([]string{}, cs.Algos...), bad), io.Discard); err == nil && len(hs) > 0 {
+			c.Cover("stream:other-algorithm-name-accepted")
 		}
 		if _, _, err := hashio.NewHasherReader(bad, bytes.NewReader(nil)); err == nil {
-			c.Failf("NewHasherReader accepted the unknown algorithm %q", bad)
+			c.Cover("stream:other-algorithm-name-accepted")
 		}
-		c.Cover("stream:unknown-algorithm-rejected")
 	}
 	c.Cover(fmt.Sprintf("stream:subset-size-%d", len(cs.Algos)))
 	seen := map[string]bool{}
